@@ -22,6 +22,10 @@
 (*   nest_on      with save_and_reraise_exception(): pass  -> re-raises the *)
 (*                exception it captured (E1) out of the body                *)
 (*   nest_off     with save_and_reraise_exception(reraise=False): pass      *)
+(*   nest_caught  try: with save_and_reraise_exception(): pass / except:    *)
+(*                pass -- the nested context re-raises E1 and the body      *)
+(*                catches it: E1's traceback has grown, the outer context   *)
+(*                must still re-raise it with the traceback it saved        *)
 (*   force        ctx.force_reraise()   (raises the saved exception)        *)
 (*   capture      ctx.capture()         (re-captures the active exception)  *)
 (*   capture_in   try: raise E2 / except: ctx.capture()  (saves E2 instead) *)
@@ -34,7 +38,7 @@ EXTENDS Integers, Sequences, TLC
 
 CONSTANTS MaxLen
 
-Ops == {"noop", "inner", "set_off", "set_on", "raise_new", "nest_on", "nest_off",
+Ops == {"noop", "inner", "set_off", "set_on", "raise_new", "nest_on", "nest_off", "nest_caught",
         "force", "capture", "capture_in"}
 
 VARIABLES prog,      \* the body so far
@@ -59,7 +63,7 @@ BodyRaises(e) == /\ done' = TRUE /\ propagates' = e
 Step(op) ==
   /\ ~done /\ Len(prog) < MaxLen
   /\ prog' = Append(prog, op)
-  /\ CASE op \in {"noop", "inner", "nest_off"} -> UNCHANGED <<flag0, reraise, saved, done, propagates, logged, direct>>
+  /\ CASE op \in {"noop", "inner", "nest_off", "nest_caught"} -> UNCHANGED <<flag0, reraise, saved, done, propagates, logged, direct>>
        [] op = "set_off" -> reraise' = FALSE /\ UNCHANGED <<flag0, saved, done, propagates, logged, direct>>
        [] op = "set_on"  -> reraise' = TRUE /\ UNCHANGED <<flag0, saved, done, propagates, logged, direct>>
        [] op = "raise_new" -> BodyRaises(3) /\ UNCHANGED direct
@@ -103,7 +107,7 @@ LoggedAtMostOnce == logged <= 1
 FilterCases == {[usage |-> u, pred |-> p, body |-> b] :
                    u \in {"context", "decorated", "bound_method", "call_in_handler", "call_other_exc"},
                    p \in {"True", "False", "truthy", "None", "zero"},
-                   b \in {"ok", "raises"}}
+                   b \in {"ok", "raises", "raises_base"}}        \* raises_base: a BaseException that is not an Exception
 FilterRef(cs) ==
   IF cs.body = "ok" THEN [propagates |-> "none", pred_called |-> cs.usage \in {"call_in_handler", "call_other_exc"}]
   ELSE [propagates |-> IF cs.pred \in {"True", "truthy"} THEN "none" ELSE "same_object", pred_called |-> TRUE]
